@@ -221,6 +221,9 @@ struct Payload {
   Payload(int x) : v(x), alive(true) { ctor++; }
   Payload(const Payload &o) : v(o.v), alive(true) { ctor++; }
   Payload &operator=(const Payload &o) { if (!alive) assign_to_dead++; v = o.v; return *this; }
+  // moves leave the source in a different (moved-from) state, like a heap-owning result type would
+  Payload(Payload &&o) : v(o.v), alive(true) { ctor++; o.v = ~o.v; }
+  Payload &operator=(Payload &&o) { if (!alive) assign_to_dead++; v = o.v; o.v = ~o.v; return *this; }
   ~Payload() { dtor++; alive = false; }
 };
 int Payload::ctor, Payload::dtor, Payload::assign_to_dead;
@@ -238,6 +241,8 @@ VP_ENTRY vp_main_asynctask()
     Payload r = t->get();
     vp_assert(r.v == x, "AsyncTask::get() yields exactly the value the function returned");
     vp_assert(t->finished(), "after get() the task has finished");
+    Payload r2 = t->get();
+    vp_assert(r2.v == x, "a second get() yields the same complete value (the stored result is not consumed)");
     t->~AsyncTask<Payload>();
   }
   vp_assert(Payload::assign_to_dead == 0, "the result is never assigned into a result slot that is not (yet) a constructed object");
